@@ -1,4 +1,5 @@
 import SpgProofs.Properties.C17
+import SpgProofs.Properties.C17b
 #print axioms Spg.C17.cli_tables_ok
 #print axioms Spg.C17.cli_output_sites
 #print axioms Spg.C17.cli_one_password_site
@@ -11,3 +12,8 @@ import SpgProofs.Properties.C17
 #print axioms Spg.C17.cli_characters_spec
 #print axioms Spg.C17.cli_words_spec
 #print axioms Spg.C17.cli_flag_last_wins
+#print axioms Spg.C17.file_words_flatten
+#print axioms Spg.C17.file_words_spec
+#print axioms Spg.C17.file_words_render
+#print axioms Spg.C17.file_words_render_last
+#print axioms Spg.C17.isSpace_table
